@@ -522,9 +522,10 @@ def check_searches(repo, rep):
   an, ac = appends[0]
   body = g.loop_body_nodes(loop)
   # every iteration appends exactly once: no path iter -> back to header avoiding the append
-  p = g.path_avoiding(loop, lambda n: n is loop or n is g.exit, lambda n: n is an,
-                      lambda a, b, lab: lab != 'exc' and not (a is loop and lab == 'exhausted'))
-  rep.check(an in body and p is None, 'R4/order', 'search_results appends once per retrieved design', f.qualname,
+  p = g.iteration_skipping(loop, [an])
+  leaves = [n for n in g.nodes if n.kind in ('break', 'return') and any(x is n.ast for x in ast.walk(loop.ast))]
+  p = p or (leaves and [(leaves[0], None)])
+  rep.check(any(x is an.ast for x in ast.walk(loop.ast)) and not p, 'R4/order', 'search_results appends once per retrieved design', f.qualname,
             'for %s: %s' % (norm(loop.ast.target), norm(ac)),
             'some iteration of the retrieval loop does not append its design (a design is dropped or the loop is left early)', f.loc(ac))
   # iterated sequence = get_result()[KEY] in heap order
